@@ -304,7 +304,8 @@ class C19(DiffProperty):
     quick_n = 3200
     thorough_n = 200000
     rule = ("a case = one source (description text for mpt_iterator_create / _values / _string / _poly / _profile, or the arguments of "
-            "mpt_iterator_linear / _boundary / mpt_meta_buffer / _arguments / mpt_values_linear / _bound) + an interleaving of up to 30 calls "
+            "mpt_iterator_linear / _boundary / mpt_meta_buffer / _arguments / mpt_values_linear / _bound, or a text/value-list iterator handed as "
+            "TypeIteratorPtr value to _mpt_iterator_linear/_range/_factor - kind from, with the next value of the source observed) + an interleaving of up to 30 calls "
             "of value / advance / reset / clone / mpt_iterator_consume / documented loop (<= 40 elements) / read-as-string on the source "
             "(lower case) and on its clone (upper case). Descriptions are generated from the grammar (lin|linear, fac|fact|factor, range, value "
             "lists; profile lin/bound/poly) with counts 0,1,2,..,2^31-1,2^31,2^32-2,2^32-1,2^32,negative, hex/octal, overlong, and bounds "
@@ -321,32 +322,34 @@ class C19(DiffProperty):
                 "mptcore/array/meta_buffer.c + slice_next.c for 'c' arrays, mptcore/types/iterator_consume.c (target 'd'), "
                 "mptcore/misc/string_nextvis.c, the control flow of mpt_cdouble / mpt_cuint32 transcribed in coq/C19/IterModel.v; "
                 "binary64 arithmetic is modelled exactly (round-to-nearest-even on rationals; sign of zero not represented); strtod / "
-                "strtoumax are oracles; NOT modelled: the 'file' profile, mpt_range_set / constructors fed from another iterator, keyword "
-                "('k') and vector conversions of the string iterator, typed (non-char) buffers, errno values, allocation failure")
+                "strtoumax are oracles; mpt_range_set and the constructors fed from another iterator (consume 'u'/'d' from a text iterator or a "
+                "value list) are modelled; NOT modelled: the 'file' profile, keyword ('k') and vector conversions of the string iterator, "
+                "typed (non-char) buffers, errno values, allocation failure")
     trusted = ["libc strtod / strtoumax (value, consumed length, ERANGE) are an oracle: the generator asks the same libc through ctypes for every "
                "offset of every text and the model consumes the table; isspace/isgraph/isalpha of the 'C' locale are ASCII tables in the model",
                "IEEE-754 binary64 round-to-nearest-even of the host (SSE2, no contraction at -O1) is what rnd64 in IterModel.v computes; this is "
                "validated by the bit-exact comparison of every value, not proved",
                "harness/c19_iter.c reads values the way examples/iter.c does (value(), mpt_value_convert to 'd'); texts live in exact-size heap blocks"]
-    level_text = ("proof: 18 Coq theorems (coq/C19/Properties.v), all for EVERY arithmetic rnd : Q -> fv, every count in N and every history, no "
-                  "bound: C19_walk_visits_exactly / C19_walk_of_nothing (documented loop from any reachable state of the linear/range, factor, "
-                  "boundary, polynomial and value-list iterators yields exactly the remaining denoted sequence, in order, and stops), "
-                  "C19_text_walk_visits_exactly (same for the text iterator read as numbers), C19_past_end_reported (no value, negative code, "
-                  "state unchanged), C19_reset_replays + C19_denoted_stable, C19_clone_replays / C19_clone_refines, C19_history_refines (any "
-                  "interleaving of value/advance/reset/clone on source and clone, all seven kinds incl. buffer/argument iterators, "
-                  "corresponds call by call to a cursor over the denoted sequence), C19_build_fresh / C19_buffer_fresh / C19_text_fresh "
-                  "(constructors establish the invariant), C19_linear_closed_form + _first/_last/_equal_steps (exact arithmetic: element i = a + "
-                  "i(b-a)/n, first a, last b), C19_accepted_in_grammar + C19_malformed_refused (mpt_iterator_create accepts only the transcribed "
-                  "grammar, with the count/bounds at the named positions). The model is tied to the code on every run by differential execution "
-                  "under ASan/UBSan; binary64 arithmetic is modelled exactly, every value compared bit for bit")
+    level_text = ("proof: 32 Coq theorems (coq/C19/Properties.v), all for EVERY arithmetic rnd : Q -> fv, every count in N and every history, no "
+                  "bound. Protocol: C19_walk_visits_exactly / C19_walk_of_nothing / C19_text_walk_visits_exactly (documented loop yields exactly "
+                  "the remaining denoted sequence and stops), C19_past_end_reported, C19_reset_replays + C19_denoted_stable, C19_clone_replays / "
+                  "C19_clone_refines, C19_history_refines (any interleaving of value/advance/reset/clone on source and clone, all seven kinds), "
+                  "C19_build_fresh / C19_buffer_fresh / C19_text_fresh. Descriptions: C19_accepted_iff_in_grammar (mpt_iterator_create accepts "
+                  "EXACTLY the grammar, with count/bounds at the named positions), C19_malformed_refused, C19_grammar_unambiguous, "
+                  "C19_profile_iff_in_grammar, C19_poly_accepted_in_grammar / C19_poly_in_grammar_accepted, C19_build_denotes / "
+                  "C19_created_denotes / C19_profile_denotes (accepted => denotes exactly the sequence given by count and formula, iterator "
+                  "at its start). Formulas: C19_linear_closed_form + _first/_last/_equal_steps, C19_poly_exact (exact arithmetic), "
+                  "C19_values_linear_spec / C19_values_bound_spec / C19_values_small / C19_values_linear_exact. Feeding: C19_range_from_numbers, "
+                  "C19_count_from_numbers_refused. The model is tied to the code on every run by differential execution under ASan/UBSan; "
+                  "binary64 arithmetic is modelled exactly, every value compared bit for bit")
     level_note = ("trusted: Coq kernel; hand transcription of the C files (validated by the correspondence run, not verified); extraction and "
-                  "OCaml driver; harness; libc strtod/strtoumax as oracle (table per text offset); rnd64 = IEEE round-to-nearest-even is "
-                  "validated by bit-exact comparison, not proved. PARTIAL: (1) the grammar theorem is the soundness direction (accepted => in "
-                  "grammar, hence outside grammar => refused); completeness (in grammar => accepted) is not proved; the profile and polynomial "
-                  "description parsers and mpt_values_linear/_bound are modelled and compared but have no theorem; (2) the closed form is "
-                  "proved for exact arithmetic; its distance to the binary64 evaluation is checked by the stated 4-ulp rule on every explored "
-                  "case, not proved; (3) constructors fed from another iterator (mpt_range_set, TypeIteratorPtr values) and the 'file' profile "
-                  "are not modelled. The theorems hold for the tree with the 12 fix: commits of branch verif-C19. All theorems are closed under "
+                  "OCaml driver; harness; libc strtod/strtoumax as oracle (table per text offset; the grammar tokens are defined as what the "
+                  "table answers through mpt_cdouble/mpt_cuint32, so the grammar theorems need no hypothesis on the table); rnd64 = IEEE "
+                  "round-to-nearest-even is validated by bit-exact comparison, not proved. PARTIAL: (1) the closed forms (linear, polynomial, "
+                  "mpt_values_linear) are proved for exact arithmetic; their distance to the binary64 evaluation is checked by the stated "
+                  "4-ulp rule on every explored case, not proved; (2) constructors fed from a TEXT iterator are modelled and compared only "
+                  "(theorems cover sources that serve numbers); the name tails of the profile keywords (next_vis_cont/next_vis0) enter the "
+                  "profile grammar as the model's lexical functions; (3) the 'file' profile is not modelled. All theorems are closed under "
                   "the global context (no axioms). See docs/notes_C19.md.")
     technique = "Coq proof (state machines refine a cursor over the denoted sequence) + differential correspondence check with exact binary64 model"
     assumptions = ["malloc succeeds", "texts contain no byte >= 0x80 (the C code passes plain char to isspace)",
@@ -446,6 +449,8 @@ class C19(DiffProperty):
             cl.add("walk")
         if len(o) >= 20:
             cl.add("history>=20")
+        if hdr[0] == "from":
+            cl.add("from:" + hdr[1].split(";")[0] + ":" + hdr[1].split(";")[1])
         if hdr[0] in TEXT_KINDS + GRID_KINDS:
             th = hdr[1].split(";")[0]
             if th != "n":
@@ -528,10 +533,25 @@ class C19(DiffProperty):
             elif r < 0.87:
                 cases.append(mk_text_case("profile", gen_profdesc(rng).encode() if rng.random() < 0.97 else None, ops,
                                           gen_grid(rng, rng.random() < 0.1)))
-            elif r < 0.95:
+            elif r < 0.94:
                 b = gen_buffer(rng)
                 kind = rng.choice(["buffer", "args"])
                 cases.append(" ".join([kind, hx(b) if (b and rng.random() < 0.95) else "n", "-"] + ops))
+            elif r < 0.975:
+                # constructors fed from another iterator
+                ctor = rng.choice(["lin", "range", "fac"])
+                sk = rng.choice(["string", "string", "string", "values"])
+                if rng.random() < 0.7:
+                    n = rng.choice([0, 1, 2, 3, 4, 5])
+                    first = cnt(rng, 0.8) if (ctor != "range" and rng.random() < 0.85) else num(rng, 0.9)
+                    toks = ([first] if n else []) + [num(rng, 0.9) for _ in range(max(0, n - 1))]
+                    t = rng.choice([" ", " ", ","]).join(toks) if sk == "string" else " ".join(toks)
+                else:
+                    t = gen_string(rng) if sk == "string" else gen_vals(rng)
+                t = t.encode()
+                if not ok_consume_string(t) or not t.strip():
+                    t = b"3 0 1"
+                cases.append(" ".join(["from", "%s;%s;%s" % (ctor, sk, hx(t)), oracle(t)] + ops))
             else:
                 pts = rng.choice([-1, 0, 1, 2, 3, 4, 6])
                 ld = rng.choice([1, 1, 2, 3])
